@@ -718,45 +718,37 @@ func (r *stateResolverV2) calculateFullAuthChainAndConflictedSubgraph(
 // the result here in reverse, so that the room creation is at the beginning of
 // the list, rather than the end.
 func (r *stateResolverV2) createPowerLevelMainline() []PDU {
-	var mainline []PDU
+	// The mainline follows ONE power level event per step: the first power level event among
+	// the auth events (an event that lists several is accepted by the parser). Following all
+	// of them visited every path of power level events - exponential in their number.
+	var reversed []PDU
+	seen := make(map[string]struct{})
+	for event := r.resolvedPowerLevels; event != nil; event = r.firstPowerLevelAuthEvent(event, seen) {
+		seen[event.EventID()] = struct{}{}
+		reversed = append(reversed, event)
+	}
+	mainline := make([]PDU, len(reversed))
+	for i, event := range reversed {
+		mainline[len(reversed)-1-i] = event
+	}
+	return mainline
+}
 
-	// Define our iterator function.
-	// Events currently being walked: a reference back to one of them is a cycle
-	// (possible with forged event IDs) and must not be followed.
-	walking := make(map[string]struct{})
-	var iter func(event PDU)
-	iter = func(event PDU) {
-		// Append this event to the beginning of the mainline.
-		mainline = append(mainline, nil)
-		copy(mainline[1:], mainline)
-		mainline[0] = event
-		walking[event.EventID()] = struct{}{}
-		defer delete(walking, event.EventID())
-		// Work through all of the auth event IDs that this event refers to.
-		for _, authEventID := range event.AuthEventIDs() {
-			if _, ok := walking[authEventID]; ok {
-				continue
-			}
-			// Check that we actually have the auth event in our map - we need this so
-			// that we can look up the event type.
-			if authEvent, ok := r.authEventMap[authEventID]; ok {
-				// Is the event a power event?
-				if authEvent.Type() == spec.MRoomPowerLevels && authEvent.StateKeyEquals("") {
-					// We found a power level event in the event's auth events - start
-					// the iterator from this new event.
-					iter(authEvent)
-				}
+// firstPowerLevelAuthEvent returns the first power level event among the auth events of the
+// given event that we have been supplied with, or nil. Events in skip are passed over: a
+// reference back to an event already walked is a cycle (possible with forged event IDs).
+func (r *stateResolverV2) firstPowerLevelAuthEvent(event PDU, skip map[string]struct{}) PDU {
+	for _, authEventID := range event.AuthEventIDs() {
+		if _, ok := skip[authEventID]; ok {
+			continue
+		}
+		if authEvent, ok := r.authEventMap[authEventID]; ok {
+			if authEvent.Type() == spec.MRoomPowerLevels && authEvent.StateKeyEquals("") {
+				return authEvent
 			}
 		}
 	}
-
-	// Begin the sequence from the currently resolved power level event from the
-	// topological ordering.
-	if r.resolvedPowerLevels != nil {
-		iter(r.resolvedPowerLevels)
-	}
-
-	return mainline
+	return nil
 }
 
 // getFirstPowerLevelMainlineEvent iteratively steps through the auth events of
@@ -768,60 +760,18 @@ func (r *stateResolverV2) createPowerLevelMainline() []PDU {
 func (r *stateResolverV2) getFirstPowerLevelMainlineEvent(event PDU) (
 	mainlineEvent PDU, mainlinePosition int, steps int,
 ) {
-	// Define a function that the iterator can use to determine whether the event
-	// is in the mainline set or not.
-	isInMainline := func(searchEvent PDU) (int, bool) {
-		// If we already know the mainline position then return it.
-		pos, ok := r.powerLevelMainlinePos[searchEvent.EventID()]
-		return pos, ok
-	}
-
-	// Define our iterator function. Events currently being walked are remembered so
-	// that a cycle of auth events (possible with forged event IDs) is not followed.
-	walking := make(map[string]struct{})
-	var iter func(event PDU)
-	iter = func(event PDU) {
-		walking[event.EventID()] = struct{}{}
-		defer delete(walking, event.EventID())
-		// In much the same way as we do in createPowerLevelMainline, we loop
-		// through the event's auth events, checking that it exists in our supplied
-		// auth event map and finding power level events.
-		for _, authEventID := range event.AuthEventIDs() {
-			if _, ok := walking[authEventID]; ok {
-				continue
-			}
-			// Check that we actually have the auth event in our map - we need this so
-			// that we can look up the event type.
-			authEvent, ok := r.authEventMap[authEventID]
-			if !ok {
-				continue
-			}
-			// If the event isn't a power level event then we'll ignore it.
-			if authEvent.Type() != spec.MRoomPowerLevels || !authEvent.StateKeyEquals("") {
-				continue
-			}
-			// Is the event in the mainline?
-			if pos, isIn := isInMainline(authEvent); isIn {
-				// It is - take a note of the event and position and stop the
-				// iterator from running any further.
-				mainlineEvent = authEvent
-				mainlinePosition = pos
-				// Cache the result so that a future request for this position will
-				// be faster.
-				r.powerLevelMainlinePos[mainlineEvent.EventID()] = mainlinePosition
-				return
-			}
-			// It isn't - increase the step count and then run the iterator again
-			// from the found auth event.
-			steps++
-			iter(authEvent)
+	// Walk back along the power level events, one per step like the mainline itself, until
+	// we reach one that is in the mainline.
+	seen := map[string]struct{}{event.EventID(): {}}
+	for curr := r.firstPowerLevelAuthEvent(event, seen); curr != nil; curr = r.firstPowerLevelAuthEvent(curr, seen) {
+		if pos, ok := r.powerLevelMainlinePos[curr.EventID()]; ok {
+			return curr, pos, steps
 		}
+		// It isn't - increase the step count and go on from the found auth event.
+		steps++
+		seen[curr.EventID()] = struct{}{}
 	}
-
-	// Start the iterator with the supplied event.
-	iter(event)
-
-	return
+	return nil, 0, steps
 }
 
 // authAndApplyEvents iterates through the supplied list of events and auths
